@@ -740,7 +740,8 @@ func ProbeFwdStale() bool {
 	sub := &Graph{Mode: "pregel", Nodes: []Node{{Key: "x", Body: Body{Op: "tag"}}, {Key: "y", Body: Body{Op: "tag"}}},
 		Edges: [][2]string{{"start", "x"}, {"x", "y"}, {"y", "end"}}, IntAfter: []string{"x"}}
 	c := &Case{G: &Graph{Mode: "pregel", MaxSteps: 4, Nodes: []Node{{Key: "s", Body: Body{Op: "graph", G: sub}}, {Key: "a", Body: Body{Op: "tag"}}},
-		Edges: [][2]string{{"start", "s"}, {"s", "a"}, {"a", "s"}}}, Input: "x", MaxCalls: 2}
+		Edges:    [][2]string{{"start", "s"}, {"s", "a"}},
+		Branches: []Branch{{From: "a", Ends: []string{"s", "end"}, Table: [][]string{{"s"}}}}}, Input: "x", MaxCalls: 2}
 	h, class := RunHistory(c)
 	if class != "ran" || len(h.Calls) < 2 {
 		return false
